@@ -23,6 +23,8 @@ from hpstatic.terms import (sym, intern, show, subterms, calls_in, NONE, num, kw
                             atoms_of)
 from . import c01
 
+MUTATION_TARGETS = {'holopy/scattering/imageformation.py': ['_calculate_scattered_field_from_superposition', '_calculate_multiple_color_scattered_field', '_calculate_single_color_scattered_field', 'select_scatterer_by_illumination'], 'holopy/scattering/scatterer/composite.py': ['get_component_list'], 'holopy/core/metadata.py': ['to_vector', 'dict_to_array']}
+
 LEVEL = 'other'
 META = dict(
     claimed=True,
